@@ -5,6 +5,7 @@ Property theorems (helper lemmas live in RigModel/Lemmas/C04*.lean).
 import RigModel.Lemmas.C04
 import RigModel.Lemmas.C04Apply
 import RigModel.Lemmas.C04Top
+import RigModel.Lemmas.C04Brute
 set_option linter.unusedSimpArgs false
 set_option linter.unusedVariables false
 
@@ -362,6 +363,23 @@ theorem minimiseTables_equiv (chips : List (Nat × List Entry × Option Nat)) (m
             · exact ⟨by simpa using he, (chip, T, target), by simp, rfl, hr⟩
             · obtain ⟨h1, x, hx, h2⟩ := ih2 y hy
               exact ⟨h1, x, List.mem_cons_of_mem _ hx, h2⟩
+
+/-! ## The oracle of the check is the specification -/
+
+/-- **oracle_decides.** `routeEquivBrute` - the function the check runs on every table returned
+by the implementation, enumerating only the key bits that can make a difference - returns no
+failing key exactly when `RouteEquiv T T'` holds over all 2^32 keys. -/
+theorem oracle_decides (T T' : List Entry) : routeEquivBrute T T' = none ↔ RouteEquiv T T' :=
+  routeEquivBrute_none_iff T T'
+
+/-- and a key it returns is a genuine counterexample -/
+theorem oracle_counterexample (T T' : List Entry) (k : W) (h : routeEquivBrute T T' = some k) :
+    ¬ KeyOk T T' k := by
+  simp only [routeEquivBrute] at h
+  have := List.find?_some h
+  intro hk
+  rw [(keyOkB_iff T T' k).mpr hk] at this
+  cases this
 
 /-- non-vacuity of the chain: an orthogonal table with known sources is minimised to one entry -/
 example :
